@@ -73,6 +73,14 @@ impl Prop for C18 {
         if !pw.is_empty() && get(c, "pwtail").starts_with("nul") { let l = pw.len(); pw[l - 1] = 0; if get(c, "pwtail") == "nul-both" { pw[0] = 0; } }
         o.nontrivial = Some(format!("{}/{}/{}/{}/{}/{}", n, r, p, dk, pw.len(), salt.len()));
         o.tags.push(format!("N=2^{}", k)); o.tags.push(format!("r={}", r.min(9))); o.tags.push(format!("dk{}", if dk < 32 { "<32" } else if dk == 32 { "=32" } else { ">32" }));
+        // history: right before the call under test the same thread derives a key for the NEIGHBOURING split of the same bytes
+        // (password one byte shorter, that byte in front of the salt — or the other way round) and for neighbouring cost parameters;
+        // the results are thrown away: scrypt is a function of (password, salt, N, r, p, dkLen), each taken on its own
+        if !pw.is_empty() || !salt.is_empty() {
+            let (pw2, salt2) = if !pw.is_empty() && (salt.is_empty() || rng.chance(1, 2)) { (pw[..pw.len() - 1].to_vec(), [&pw[pw.len() - 1..], &salt[..]].concat()) } else { ([&pw[..], &salt[..1]].concat(), salt[1..].to_vec()) };
+            let _ = catch_unwind(AssertUnwindSafe(|| { if k >= 2 { let _ = kestrel_crypto::scrypt(&pw, &salt, n / 2, r as u32, p as u32, dk + 5); } kestrel_crypto::scrypt(&pw2, &salt2, n, r as u32, p as u32, dk + 3) }));
+            o.tags.push("primed with the neighbouring (password, salt) split".into());
+        }
         let lib = catch_unwind(AssertUnwindSafe(|| kestrel_crypto::scrypt(&pw, &salt, n, r as u32, p as u32, dk)));
         let lib = match lib { Ok(v) => v, Err(_) => { o.impl_obs = "crash".into(); o.oracle_fail = Some(("no-panic".into(), "library scrypt panicked on valid parameters".into())); return o; } };
         let spec = m.ask(&format!("scrypt {} {} {} {} {} {}", hexd(&pw), hexd(&salt), n, r, p, dk));
